@@ -19,6 +19,7 @@
 import typing
 import warnings
 from collections import OrderedDict, namedtuple
+from urllib.parse import urlparse
 
 from lxml import etree
 
@@ -290,7 +291,7 @@ class Port:
             return False
 
         if definitions.location and self.binding.wsdl.settings.force_https:
-            force_https = definitions.location.startswith("https")
+            force_https = urlparse(definitions.location).scheme == "https"
         else:
             force_https = False
 
